@@ -3163,9 +3163,13 @@ def phase_angle(sun_dist, earth_dist, sun_earth_dist):
     if not (isinstance(sun_dist, float) and isinstance(earth_dist, float)
             and isinstance(sun_earth_dist, float)):
         raise TypeError("Invalid input types")
-    angle = acos((sun_dist * sun_dist + earth_dist * earth_dist
-                  - sun_earth_dist * sun_earth_dist)
-                 / (2.0 * sun_dist * earth_dist))
+    cosine = ((sun_dist * sun_dist + earth_dist * earth_dist
+               - sun_earth_dist * sun_earth_dist)
+              / (2.0 * sun_dist * earth_dist))
+    # A flat (collinear) triangle gives +/-1; rounding may overshoot by an ulp
+    if abs(cosine) > 1.0 and abs(cosine) < 1.0 + 1e-12:
+        cosine = 1.0 if cosine > 0.0 else -1.0
+    angle = acos(cosine)
     angle = Angle(angle, radians=True)
     return angle
 
